@@ -184,7 +184,7 @@ class _Run:
     def __init__(self, skip_classes=(), only_class=None):
         self.skip, self.only = tuple(skip_classes or ()), only_class
         self.cases, self.seen, self.skipped, self.accepted, self.rejected = 0, set(), {}, 0, {}
-        self.rv, self.rv_examples, self.ops = 0, [], {}
+        self.rv, self.rv_examples, self.ops, self.last_accepted = 0, [], {}, False
 
     def report(self, cls, expected, observed, call):
         if _match(cls, self.skip) or (self.only and not _match(cls, (self.only,))):
@@ -218,39 +218,43 @@ PATHS = ("create", "parse+load", "reload")
 
 
 def _attempt(fl, eng, text, path, valid):
-    """-> (rule or None, exception or None, the failure (if any) happened while loading rather than while parsing)"""
-    rule, loading = None, False
+    """-> (rule or None, exception or None, must_be_unloaded: a failure leaves this rule object in a state where is_loaded() has to be False)"""
+    rule, parsed = None, False
     try:
         if path == "create":
-            return fl.Rule.create(text, eng), None, True
+            return fl.Rule.create(text, eng), None, False
         rule = fl.Rule() if path == "parse+load" else fl.Rule.create(valid, eng)
         rule.parse(text)
-        loading = True
+        parsed = True
         rule.load(eng)
-        return rule, None, True
+        return rule, None, False
     except (KeyboardInterrupt, SystemExit):
         raise
     except BaseException as ex:  # noqa
-        if path == "create":       # the rule object under construction: local `rule` of Rule.create
+        if path == "create":       # the rule object under construction is the local `rule` of Rule.create
             tb = ex.__traceback__
             while tb is not None:
                 if tb.tb_frame.f_code.co_name == "create" and "rule" in tb.tb_frame.f_locals:
-                    rule, loading = tb.tb_frame.f_locals["rule"], True
+                    rule = tb.tb_frame.f_locals["rule"]
                 tb = tb.tb_next
-        return rule, ex, loading or path != "reload"
+        # a fresh rule was never loaded; a previously loaded one legitimately stays loaded when the new text does not even parse
+        return rule, ex, rule is not None and (parsed or path != "reload")
 
 
-def _snip(path, text, valid):
-    if path == "create":
+def _snip(path, text, valid, guarded=False):
+    if path == "create" and not guarded:
         return f"fl.Rule.create({text!r}, e)"
-    first = "r = fl.Rule()" if path == "parse+load" else f"r = fl.Rule.create({valid!r}, e)"
+    first = f"r = fl.Rule.create({valid!r}, e)" if path == "reload" else "r = fl.Rule()"
+    if guarded:
+        return f"{first}; r.parse({text!r})\ntry: r.load(e)\nexcept Exception as ex: print(type(ex))\nprint(r.is_loaded())"
     return f"{first}; r.parse({text!r}); r.load(e)"
 
 
 def _judge_rule(fl, run, eng, ref, text, path, valid, setup):
     """contract (a)-(d) for one text through one load path; -> failure dict or None"""
-    rule, ex, loading = _attempt(fl, eng, text, path, valid)
+    rule, ex, must_be_unloaded = _attempt(fl, eng, text, path, valid)
     call = f"import fuzzylite as fl; {setup}; {_snip(path, text, valid)}"
+    run.last_accepted = ex is None
     if ex is not None:
         if not isinstance(ex, ALLOWED):
             return run.report(f"internal-error:{type(ex).__name__}", "the rule is loaded, or SyntaxError / ValueError / KeyError", _exc(ex), call)
@@ -260,8 +264,9 @@ def _judge_rule(fl, run, eng, ref, text, path, valid, setup):
                 run.rv += 1
                 if len(run.rv_examples) < 3:
                     run.rv_examples.append(f"{text!r}: {type(ex).__name__}: {str(ex)[:80]}")
-        if rule is not None and loading and rule.is_loaded():
-            return run.report("loaded-after-failure", "rule.is_loaded() is False after the load failed", f"is_loaded() == True after {_exc(ex)}", call + "; r.is_loaded()")
+        if must_be_unloaded and rule.is_loaded():
+            return run.report("loaded-after-failure", "rule.is_loaded() is False after the load failed", f"is_loaded() == True after {_exc(ex)}",
+                              f"import fuzzylite as fl; {setup}; {_snip(path, text, valid, guarded=True)}")
         return None
     kind = ref.rule(text)
     if kind:
@@ -288,9 +293,8 @@ def _drive(fl, run, eng, ref, texts, valid, setup, every=1):
         if text in run.seen:
             continue
         run.seen.add(text)
-        before = run.accepted
         for path in PATHS:
-            if path != "create" and n % every and run.accepted == before:
+            if path != "create" and n % every and not run.last_accepted:
                 continue
             run.cases += 1
             f = _judge_rule(fl, run, eng, ref, text, path, valid, setup)
@@ -316,7 +320,7 @@ def _mutants(toks, pools):
         if i + 1 < n and toks[i] != toks[i + 1]:
             yield "swap", toks[:i] + [toks[i + 1], toks[i]] + toks[i + 2:]
         rest = toks[:i] + toks[i + 1:]
-        for j in {0, i - 2, i + 2, n - 1} - {i}:
+        for j in sorted({0, i - 2, i + 2, n - 1} - {i}):
             if 0 <= j < n:
                 yield "move", rest[:j] + [toks[i]] + rest[j:]
     for s in (")", "zzz", "0.5", "and", "with", toks[-1] if toks else "x"):
@@ -689,6 +693,11 @@ def _judge_fll(fl, run, text, source, desc):
         fl.FllExporter().to_string(eng)
     except Exception as ex:  # noqa
         return run.report("accepted-not-exportable", "an imported engine can be exported again", _exc(ex), call + " then fl.FllExporter().to_string(engine)")
+    ref = _Ref(eng)
+    for r in (r for rb in eng.rule_blocks for r in rb.rules):
+        kind = ref.rule(r.text)
+        if kind:
+            return run.report(f"accepted-malformed:{kind.split('/')[0]}", f"the rule is rejected: it is outside the rule grammar [{kind}]", f"imported rule {r.text!r}", call)
     unloaded = [r.text for rb in eng.rule_blocks for r in rb.rules if not r.is_loaded()]
     if unloaded:
         return run.report("rule-not-loaded", "every rule of an imported engine is loaded (no load error was raised)", f"not loaded: {unloaded[:3]}", call)
